@@ -69,7 +69,10 @@ impl TaskPool {
     pub fn spawn(&self, code: Box<dyn FnMut() + Send>) {
         let mut queue = self.sharing.todo.lock().unwrap();
 
-        if self.sharing.waiting_tasks.load(Ordering::Acquire) == 0 {
+        // `waiting_tasks` still counts workers that were already notified for an
+        // earlier task and have not re-acquired the lock yet: only the waiters in
+        // excess of the queued tasks are really available.
+        if self.sharing.waiting_tasks.load(Ordering::Acquire) <= queue.len() {
             self.add_thread(Some(code));
         } else {
             queue.push_back(code);
